@@ -5,7 +5,8 @@ import random
 import core
 import decsuite as ds
 
-THEOREMS = ["C05.c05_superfluous_exact", "C05.c05_done_exact", "C05.take_depleted", "C05.c05_cc",
+THEOREMS = ["C05.c05_root_path", "C05.c05_root_path_silent", "marshalRunAt_rr", "runWalkerAt_rr", "decode_map", "decodeCommand_map", "decodeResponse_map", "decodeStream_map",
+            "C05.c05_superfluous_exact", "C05.c05_done_exact", "C05.take_depleted", "C05.c05_cc",
             "C05.c05_surplus_walker", "runWalker_acct",
             "TRB.bind", "take_tr", "decode_tr", "decodeCommand_tr", "decodeResponse_tr", "runWalker_tr",
             "C05.c05_truncated", "C05.c05_cut_beyond", "C05.c05_truncated_type", "C05.c05_truncated_command", "C05.c05_truncated_response",
@@ -109,6 +110,18 @@ def run(ctx, replay_case):
                 ctx.violations.append({"kind": "concrete", "signature": f"root-path:{c.tname}:{b1[-1].split(' ')[1] if b1 else '-'}",
                                        "what": f"decoding a {c.tname} ({c.kind}) below a caller-supplied root path differs from decoding it at the default root (line {k})",
                                        "replay": {**c.replay("S"), "root_path": ".ROOTQ", "expected": e, "observed": g}})
+    # ... and the model below the same root (`marshalRunAt`, driver op DECR; theorem C05.c05_root_path: it is the default-root
+    # observation re-rooted) against the implementation below that root, unstripped
+    rmodel = core.run_model([f"DECR S {c.tname} {'-' if c.cc is None else c.cc} {1 if c.enc else 0} {c.data.hex() or '-'} .ROOTQ" for c in rooted])
+    rraw = core.run_impl([("DECROOTRAW", "S", c.tname, c.cc, c.enc, c.data, ".ROOTQ") for c in rooted])
+    nrm = 0
+    for c, a, b in zip(rooted, rraw, rmodel):
+        if a != b:
+            nrm += 1
+            if nrm == 1:
+                k, e, g = __import__("suites").first_diff(b, a)
+                ctx.violations.append({"kind": "correspondence", "what": "correspondence 'DECR (decoding below a caller-supplied root)' no longer checks: model and implementation disagree",
+                                       "replay": {"correspondence": "DECR", **c.replay("S"), "root_path": ".ROOTQ", "line": k, "model": e, "impl": g, "disagreements": nrm}})
     ctx.stats.update({
         "evaluations": len(derived) + len(wf),
         "distinct_nontrivial": len({(c.tname, c.cc, c.data) for c in derived}),
@@ -117,13 +130,14 @@ def run(ctx, replay_case):
                 "type; expected events = those of the whole input complete at the cut, expected error = depleted with the "
                 "command code decoded so far / superfluous with exactly the suffix; streams end cleanly only at a boundary",
         "samples": [c.replay("S") for c in derived[:: max(1, len(derived) // 5)]][:5],
-        "correspondence": {"ops": len(derived), "rooted_decodes_compared": len(rooted)},
+        "correspondence": {"ops": len(derived), "rooted_decodes_compared": len(rooted), "rooted_model_vs_impl_disagreements": nrm},
         "distribution": {"kinds": ds.kinds_distribution(derived), "failures": dict(bad), "rooted_kinds": ds.kinds_distribution(rooted),
                          "outcomes": dict(collections.Counter(ds.outcome(b) for b in impl))},
     })
 
 
-PROP = {"targets": ["TpmProofs.Props.C05S"], "module": "TpmProofs.Props.C05S", "theorems": THEOREMS, "run": run,
+PROP = {"targets": ["TpmProofs.Props.C05S", "TpmProofs.Props.C05R"], "module": ["TpmProofs.Props.C05S", "TpmProofs.Props.C05R"],
+        "checker_modules": ["TpmProofs.Props.C05S", "TpmProofs.Props.C05R"], "theorems": THEOREMS, "run": run,
         "assumptions": ["truncation (depleted after exactly the complete fields) is a theorem for every input: structures, commands, responses "
                         "(c05_truncated) and streams (c05_stream_truncated); the exactness of superfluous/done and the surplus after a conforming "
                         "value are theorems; all of it is also monitored on the real code and tied by correspondence"]}
